@@ -13,6 +13,8 @@ an equal result.
 from oracles import relang
 from sx.harness import exc_site
 
+from sx import runner  # noqa: E402
+
 PROPERTY = "C15"
 LEVEL = "model_checking"
 OPTIONS = {"quick": {"max_paths": 300000, "unit_budget_s": 1200}, "thorough": {"max_paths": 3000000, "unit_budget_s": 3400}}
@@ -165,10 +167,10 @@ def post(tier, results):
     out = {"coverage": {"regex_inclusion": []}}
     known = set()
     try:
-        known = {f["signature"] for f in json.load(open("/verif/known_findings.json")).get("findings", []) if f["property"] == "C15"}
+        known = {f["signature"] for f in json.load(open(runner.KNOWN)).get("findings", []) if f["property"] == "C15"}
     except FileNotFoundError:
         pass
-    os.makedirs("/verif/replays/C15", exist_ok=True)
+    os.makedirs(os.path.join(runner.REPLAY_DIR, "C15"), exist_ok=True)
     # loosest language first, so that the pinned deviation does not hide a new one
     for lang_name, lang, sig in (
         ("RFC 4512 attributedescription + single-arc numericoid", LOOSE, "attribute-pattern-accepts-non-rfc4512"),
@@ -189,7 +191,7 @@ def post(tier, results):
         if not accepted:
             out["inconclusive"] = True  # the solver's witness must reproduce on the real parser
             continue
-        path = f"/verif/replays/C15/regex_inclusion_{len(out['coverage']['regex_inclusion'])}.json"
+        path = os.path.join(runner.REPLAY_DIR, "C15", f"regex_inclusion_{len(out['coverage']['regex_inclusion'])}.json")
         with open(path, "w") as fh:
             json.dump({"property": "C15", "signature": sig, "filter_text": text}, fh)
         if sig in known:
